@@ -16,17 +16,22 @@ def aggregates(teams):
     return theta, var
 
 
-def margin(teams, beta, X):
-    N = sum(len(t) for t in teams)
+def _agg(teams, agg):
+    return agg if agg is not None else aggregates(teams)
+
+
+def margin(teams, beta, X, sizes=None):
+    """sizes: the team sizes when `teams` does not list every member (teams of any size)"""
+    N = sum(len(t) for t in teams) if sizes is None else _sum(sizes)
     # the constants are the doubles the documented formula evaluates to
     return X.sqrt(N) * beta * X.PhiInv((1 + 1 / N) / 2)
 
 
-def win(teams, beta, X):
+def win(teams, beta, X, agg=None, sizes=None):
     n = len(teams)
-    theta, var = aggregates(teams)
+    theta, var = _agg(teams, agg)
     if n == 2:
-        N = len(teams[0]) + len(teams[1])
+        N = (len(teams[0]) + len(teams[1])) if sizes is None else sizes[0] + sizes[1]
         p = X.Phi((theta[0] - theta[1]) / X.sqrt(N * beta * beta + var[0] + var[1]))
         return [p, 1 - p]
     out = []
@@ -36,10 +41,10 @@ def win(teams, beta, X):
     return out
 
 
-def rank_probabilities(teams, beta, X):
+def rank_probabilities(teams, beta, X, agg=None, sizes=None):
     n = len(teams)
-    theta, var = aggregates(teams)
-    m = margin(teams, beta, X)
+    theta, var = _agg(teams, agg)
+    m = margin(teams, beta, X, sizes)
     out = []
     for a in range(n):
         s = _sum(X.Phi((theta[a] - theta[b] - m) / X.sqrt(n * beta * beta + var[a] + var[b])) for b in range(n) if b != a)
@@ -47,11 +52,11 @@ def rank_probabilities(teams, beta, X):
     return out
 
 
-def draw(teams, beta, X, details=None):
+def draw(teams, beta, X, details=None, agg=None, sizes=None):
     """average over ordered pairs (plain sum for two teams) of P(|difference| < margin)"""
     n = len(teams)
-    theta, var = aggregates(teams)
-    m = margin(teams, beta, X)
+    theta, var = _agg(teams, agg)
+    m = margin(teams, beta, X, sizes)
     if details is not None:
         details.update(m=m, s={}, d={})
     tot = None
